@@ -142,7 +142,9 @@ Definition run_kind (rules : list string) (k : kind) (t : tx) : result :=
 
 Record case := mk_case {
   k_era : string; k_nred : N; k_inputs : list (option output); k_fee : Z; k_ret : option output;
-  k_pct : Z; k_max : Z; k_obs : list result }.
+  k_pct : Z; k_max : Z;
+  k_obs : list result;     (* per clause, rule function(s) called directly *)
+  k_obs2 : list result }.  (* per clause, through common.VerifyTransaction over the whole era list *)
 (* per era and clause, the entries of the real list that implement the clause
    (computed once; Proofs.kind_table_ok ties it to kind_names/rules_of) *)
 Definition kind_table_def : list (string * list (kind * list string)) :=
@@ -153,7 +155,8 @@ Definition check_case (c : case) : bool :=
   | None => false
   | Some kt =>
     let t := mk_tx (k_nred c) (k_inputs c) (k_fee c) (k_ret c) (k_pct c) (k_max c) in
-    list_eqb result_eqb (map (fun kn => verify (fun _ _ => ROk) (snd kn) t) kt) (k_obs c)
+    let model := map (fun kn => verify (fun _ _ => ROk) (snd kn) t) kt in
+    list_eqb result_eqb model (k_obs c) && list_eqb result_eqb model (k_obs2 c)
   end.
 Definition mismatches : list case -> list nat := failing check_case.
 
